@@ -401,6 +401,9 @@ class Program:
         self.records = {}
         self.decls = {}
         dup = set()
+        # new static helpers (absent from the snapshot of the pinned tree) are inlined into their callers first
+        from . import inline as _inline
+        self.inlined = _inline.apply(facts)
         for unit, raw in sorted(facts.items()):
             for f in raw["functions"]:
                 fn = Function(f, unit)
